@@ -122,6 +122,22 @@ def check_props(pid: str, timeout=900):
     return res
 
 
+def coqchk(pid: str, timeout=1500):
+    """Independent re-check of the property's compiled closure; returns (ok, summary text)."""
+    with Locked():
+        p = subprocess.run(["timeout", str(timeout), "coqchk", "-o", "-Q", ".", "IPV8V", "IPV8V.props.%s" % pid],
+                           cwd=COQ, stdout=subprocess.PIPE, stderr=subprocess.STDOUT, text=True)
+    out = p.stdout
+    i = out.find("CONTEXT SUMMARY")
+    summary = out[i:] if i >= 0 else out[-2000:]
+    ok = p.returncode == 0 and "Modules were successfully checked" in out
+    m = re.search(r"\* Axioms:(.*?)\n\s*\n\* Constants", summary, re.S)
+    axioms = [a.strip() for a in (m.group(1).split("\n") if m else []) if a.strip() and a.strip() != "<none>"]
+    clean = all(("%s <none>" % k) in re.sub(r"\s+", " ", summary) for k in
+                ("type-in-type:", "unsafe (co)fixpoints:", "positivity is assumed:"))
+    return ok and clean, axioms, summary[-1500:]
+
+
 FORBIDDEN = re.compile(r"\b(Admitted|admit|Axiom|Parameter|Conjecture|Admit Obligations)\b|Unset Guard|bypass_check|type-in-type|impredicative-set")
 
 
